@@ -7,6 +7,7 @@ use crate::monitors::gap::GapMonitor;
 use crate::monitors::handover::HandoverMonitor;
 use crate::monitors::dp::{dp_apps, BringupMonitor, CycleMonitor, FcbMonitor, ImageMonitor, LivenessMonitor};
 use crate::monitors::ring::RingMonitor;
+use crate::monitors::total::TotalMonitor;
 use crate::rng::Fnv;
 use crate::scenario::*;
 use crate::world::{Monitor, Stats, Violation, World};
@@ -56,6 +57,9 @@ pub fn build_monitors(sc: &Scenario, w: &World) -> Vec<Box<dyn Monitor>> {
         }
         "C02" => {
             m.push(Box::new(RingMonitor::new("C02", w, o.quiet_from_us, o.bound_us, o.stable_us, false)));
+        }
+        "C05" => {
+            m.push(Box::new(TotalMonitor::new("C05")));
         }
         "C11" => {
             m.push(Box::new(HandoverMonitor::new("C11", w)));
@@ -109,6 +113,7 @@ pub fn nontrivial(check: &str, s: &Stats) -> bool {
     match check {
         "C01" => s.get("access.tokens") >= 20 && s.get("access.distinct_token_senders") >= 2,
         "C02" => s.get("ring.converged") >= 1 && s.get("ring.tokens_in_stable") >= 10,
+        "C05" => s.get("total.polls_returned") >= 200 && (faults_fired(s) >= 1 || s.get("adv.sent") >= 5),
         "C06" => s.get("ring.converged") >= 1 && faults_fired(s) >= 1,
         "C11" => s.get("handover.accepted_from_predecessor") + s.get("probe.token_accepted_from_new_predecessor_on_second_offer") >= 2 && s.get("handover.claims") >= 1,
         "C12" => s.get("gap.polls") >= 10 && (s.get("probe.status_reply_not_ready") + s.get("probe.status_reply_ready") + s.get("probe.status_reply_in_ring") >= 1 || s.get("gap.sweeps_with_wait_checked") >= 1),
@@ -217,6 +222,7 @@ pub fn default_runs(check: &str, tier: Tier) -> u64 {
         "C03" | "C04" | "C08" | "C14" => (3000, 150_000),
         "C06" => (1500, 30_000),
         "C11" | "C12" => (3000, 60_000),
+        "C05" => (4000, 200_000),
         "C13" | "C15" => (1500, 30_000),
         "C07" => (2500, 80_000),
         _ => (1000, 20_000),
@@ -234,6 +240,7 @@ pub fn hang_is_violation(check: &str) -> bool {
 pub fn probe_names(check: &str) -> Vec<&'static str> {
     match check {
         "C01" | "C02" => vec!["probe.more_than_one_telegram_in_buffer", "probe.self_offline_address_collision"],
+        "C05" => vec!["probe.more_than_one_telegram_in_buffer", "probe.self_offline_address_collision"],
         "C11" => vec!["probe.token_accepted_from_new_predecessor_on_second_offer", "probe.second_pass_attempt", "probe.third_pass_attempt", "probe.successor_removed", "probe.token_passed_to_self"],
         "C12" => vec!["probe.gap_poll_discovered_a_master", "probe.status_reply_not_ready", "probe.status_reply_ready", "probe.status_reply_in_ring"],
         "C06" => vec!["probe.self_offline_address_collision", "probe.more_than_one_telegram_in_buffer"],
@@ -252,6 +259,7 @@ pub fn rule_of(check: &str) -> String {
     let nt = match check {
         "C01" => "Non-trivial = at least 20 token telegrams were sent by at least 2 different real stations (a ring existed and circulated).",
         "C02" => "Non-trivial = agreement was reached and at least 10 token passes were checked for order during the stability window.",
+        "C05" => "Non-trivial = at least 200 polls returned and at least one injected fault fired or the adversary sent at least 5 telegrams.",
         "C11" => "Non-trivial = the station claimed the token at least once and accepted a token from another station at least twice.",
         "C12" => "Non-trivial = at least 10 GAP polls were judged and at least one status reply of a real station or one complete wait between sweeps was checked.",
         "C06" => "Non-trivial = at least one injected fault fired and the remaining stations reached agreement again afterwards.",
